@@ -9,7 +9,9 @@ negotiation (C17.c); the unsplit request only runs when the extent contains the 
 otherwise the sub-query limited to the extent, which raises for an empty size (C17.d); only
 configured dimensions are forwarded (C17.e).
 Added in round 4: the SRS chosen among the supported ones is the element of the configured list
-(C17.k); every source class keeps the gate settings its constructor receives (C17.l)."""
+(C17.k); every source class keeps the gate settings its constructor receives (C17.l).
+Added in round 5: members of composed coverages are transformed before their geometry is used
+(C17.m); shared extents and coverages keep no request state (C17.n)."""
 import ast
 
 from ..engine import rule
